@@ -132,15 +132,22 @@ CHECKS = {
         "Jacobian Double/Add of curve.go and twist.go equal the tangent/chord rule on affine coordinates over any field, "
         "P+(-P) gives the identity, P+P takes the doubling branch, identity operands, MakeAffine; the constants the translator "
         "re-reads from the source on every run (np, r2, r3, rN1, p and q from u, NAF of 6u+2, twistB, the six Frobenius "
-        "constants) satisfy their defining equations (vm_compute). Tie: translate/run.py regenerates Gen/BnConsts.v from "
-        "/repo; the value-level model (all group operations and the whole Miller loop + final exponentiation ported to Gallina) "
+        "constants) satisfy their defining equations (vm_compute). The amd64 routines of the base field are translated from "
+        "gfp.s / gfp.h / mul.h / mul_bmi2.h on every run (T1, Gen/GfpAsm.v) into a machine model (Models/Asm.v): gfpAdd, gfpSub, "
+        "gfpNeg are proved for ALL limbs ((a+b) mod p, (a-b) mod p, -a mod p for operands below p), the 4x4-limb product of the "
+        "MULQ path of gfpMul is proved for all limbs (C10_asm_gfpMul_product_partial), N' p = -1 mod 2^256 and the alias "
+        "discipline of every routine are checked. Tie: translate/run.py regenerates Gen/BnConsts.v and Gen/GfpAsm.v from "
+        "/repo; the extracted machine model runs both gfpMul paths and the three other routines on every field case and must "
+        "return exactly the limbs the real assembly returned; the value-level model (all group operations and the whole Miller loop + final exponentiation ported to Gallina) "
         "is compared with the real code on directed field operands on BOTH gfpMul code paths, unreduced Montgomery inputs, "
         "scalars {0,1,q-1,q,q+1,2^256-1}, P/-P, P/P, identity, pairings with G2 operands in four internal representations, "
         "PairingCheck with identity members at every position; judges: math/big, go-ethereum's big-integer bn256, EVM precompiles.",
    note=TB + "partial by design: associativity of the group law and bilinearity/non-degeneracy of the optimal ate pairing are "
-        "not re-proved (imported mathematics); the limb-level Montgomery arithmetic of gfp.s is covered here by directed "
-        "differential runs on both paths (a limb-level translation + proof is the planned deepening).",
-   technique="translator for constants + Coq proof (ring/field identities for tower and curve formulas) + differential "
+        "not re-proved (imported mathematics); the Montgomery reduction of gfpMul (both paths) and the product of the MULX path "
+        "are translated, executed and compared limb for limb on directed operands, not proved (lia did not close the truncated "
+        "product within the time available).",
+   technique="translators for constants and for the amd64 field routines + Coq proof (symbolic execution of the translated "
+             "assembly, ring/field identities for tower and curve formulas) + differential "
              "correspondence with three independent oracles",
    ref="5/C10"),
  "C07": dict(
@@ -437,6 +444,10 @@ EXTRA_TEXT = {
  "C17": "(c) Models/ConnTable.v - callHandler's table of dialled connections and receiveHandler's table of accepted ones, connections ending and their removal announcements processed at any later time: in every reachable state a table entry names a connection to that very peer in that table's direction, alive or with its removal announced (C17_tables_invariant); a request goes out on a connection dialled to THAT peer, a reply on the connection accepted from the requester (C17_request_uses_own_connection, C17_reply_uses_requesters_connection); once the announcements are processed the tables hold live connections only and a peer that went away leaves no entry, so the next request dials afresh (C17_settled_tables_live, C17_peer_gone_tables_clean); the variant that announces to the wrong channel is refuted (C17_wrong_channel_refuted). Tie: histories of requests in both directions, peers going away and coming back at new addresses, and stray replies against one real server and three real peers, after each event the size of the accepted table, the number of dialled connections as counted by the peers, and the class of what happened (handed to a live connection / dialled / dial failed / accepted / no client) compared with the extracted model. Responders answer three requests of every scenario with a 640 000-byte reply; at the end of every scenario the node and the responders leave (tear-down must not crash). The event-level runs judge on their own that a pending request whose reply has arrived returns that reply even when its caller starts waiting only afterwards; a request and a reply whose every field is at its default (empty payload) are part of the fault-free scenarios. Fault aged-connection: the connection to each peer is opened by a request that carries a deadline; the requests made on it after that deadline has passed must be served.",
 }
 EXTRA_TEXT["C18"] = "In a further family every event type gets five logs on every endpoint, nobody reads the event channel while they are emitted (every lane of every endpoint holds logs it cannot hand over), the node then disconnects one endpoint (DisconnectWs) and starts reading: the process must survive and every log must be delivered exactly once through the remaining endpoints. Scenarios with an endpoint that is connected but sits on every eth_subscribe request for 2.5 s: SubscribeEvent must return, the other endpoints must be fully subscribed within 1.2 s, and the logs they emit in the meantime must be delivered."
+EXTRA_TEXT["C05"] = EXTRA_TEXT.get("C05", "") + " On the real pipeline (pdkg Loop + Grouping, one child process per session, driver sub c05-net): n-1 real nodes and one Byzantine member played through the vss API (bad / random / zero / another member's share, lowered threshold, foreign session id, wrong index, equivocation, towards one victim or all); judged on the recorded broadcasts: a member that finishes has approved every deal it got, a deal whose share does not verify is not approved, finishing members agree and hold shares on the polynomial."
+EXTRA_TEXT["C12"] = EXTRA_TEXT.get("C12", "") + " XPath selectors are drawn from an expression grammar (axes, node tests, nested predicates over number / string / boolean / node-set functions and operators, operands of the wrong type with probability 0 / 10 / 30 percent) over numeric and non-numeric documents: the extractor must return a value or an error (400 selectors quick, 20000 thorough); the real genQueryResult stage runs selectors whose evaluation fails against a loopback server and must serve the next request."
+EXTRA_TEXT["C16"] = EXTRA_TEXT.get("C16", "") + " Scripted packet sequences on one connection (driver sub c16-sigseq): payloads of either message type carrying the signature of the last accepted or an earlier packet; authenticity is decided by bls.Verify inside the scenario; every delivery must be an authentic packet, byte for byte, at most once, and every authentic packet before the first rejected one must be delivered; the guaranteed prefix is compared with the receive-pipeline model."
+EXTRA_TEXT["C19"] = EXTRA_TEXT.get("C19", "") + " Configurations whose chain id, gas limit and gas price are zero-padded decimal numerals (and the chain ids of the shipped configurations) on fresh adaptors with one or two endpoints: every received transaction must be signed by the node key for the number the configuration denotes and carry the gas settings it denotes."
 for _k, _v in EXTRA_TEXT.items():
     CHECKS[_k]["text"] += " " + _v
 
